@@ -22,6 +22,10 @@ Goals
   (e) region counting numbers on a tree region graph + combine_local_contractions reproduce
       the exact value.  The packaged expansion routines (contract_gloop_expand) take fractional
       powers of message overlaps: numeric-only supplement (gloop_expand_supplement).
+  (f) tensors with several dangling labels (2-norm flavours): the marginal of every dangling label, site reduced density matrices
+      and <psi|psi> (d2bp_multi_dangling);
+  (g) the result does not depend on the history of run() calls made on one instance (coarse passes that stop as 'converged',
+      single rounds, completed runs, message resets -- then a fine run): run_history.
 
 Convergence control: the run loop compares a message distance with `tol`.  In symbolic mode
 the documented callable `distance=` is supplied: 0.0 iff the two messages are *identical*
@@ -59,8 +63,18 @@ META = {
                        "local_convergence True / False, strip_exponent, symbolic stored exponent, symbolic initial messages (dict / fill "
                        "function), damping (symbolic factor and 1/4) at the fixed point, tensor orders",
             "iterations": "number of tensors (sites) + 1 (+ number of labels for the dense hyper flavour), tol = 0",
+            "several dangling labels per tensor (2-norm flavours)": "pair / path of 3 whose tensors carry the site label k{i} plus 0-2 further "
+                "dangling labels (operator-like: one extra on every tensor; 3 on a leaf; 3 on the inner tensor), dimension 2 (path of 3: "
+                "site labels of dimension 1, extras 2), positive and complex entries: D2BP messages, compute_marginal of every dangling label, "
+                "partial_trace of 1 and 2 sites, contract(); L2BP messages, partial_trace, contract()",
+            "run() call histories on one instance": "every flavour (D1BP path of 4, HD1BP / HV1BP hyper3, L1BP / L2BP 3 lazy sites, D2BP path of 3) x "
+                "update x local_convergence x histories of <= 4 steps from {coarse run (tol above every message distance: stops as converged "
+                "after 1 round), single round (tol=0), completed fine run, user reset of all messages to fresh positive symbols} followed by a fine "
+                "run and one further run: exact messages + value, rounds performed (counter n), converged flag, info record",
         },
         "thorough": {
+            "adds (new cells)": "every (flavour, geometry, extras, kind, update) cell of the several-dangling-labels family and every "
+                                "(flavour, history, update, local_convergence) cell of the run() histories",
             "adds": "path of 4, forest (two components, lazy: + a disconnected scalar site), bond 3 and mixed bonds 1/2/3 (D1BP), every "
                     "normalisation x schedule cell per receiver, star / path of 4 / forest for D2BP, lazy star of 4, complex entries for "
                     "gauging / compression, path of 3 for gauging / compression, all gauge entry points",
@@ -82,6 +96,10 @@ META = {
         "(fractional powers 1/4, 1/len of overlaps), get_gauged_tn (non-symmetric eig), sample_* (random), diis=True, thread pools: "
         "numeric-only supplement for contract_gloop_expand, the others not covered",
         "D2BP power != 1 / smudge != 0 message conditioning, D2BP.gate_, truncating compressions (approximate by design)",
+        "run() histories: tolerances strictly between 'above every distance' and 'identical messages only' (the built-in distances call float(); "
+        "see above), the rolling-mean criterion (tol_rolling_diff=0.0 is passed to the fine runs), histories that change the tensors between runs "
+        "(gate_, power / smudge setters), HV1BP resets (stacked internal messages)",
+        "several dangling labels per tensor with all label dimensions 2 on 3 tensors (cleared goals time out: site labels have dimension 1 there)",
         "bond dimension 3 for the hyper / lazy / 2-norm flavours (sizes of the cleared polynomials)",
         "open legs under D1BP (documented: no dangling indices; KeyError) and L1BP (site values are formed without output labels; "
         "TypeError); compute_tensor_marginal of a tensor with a label of its own and L2BP.partial_trace of an isolated site raise "
@@ -1174,6 +1192,86 @@ def d2bp_signed(mk, geom, kind):
         mk.eq(f"[numeric-only] contract_d2bp on {kind} data, library defaults == <psi|psi>", v, N2)
 
 
+# number of *extra* dangling labels (q{i}, r{i}, next to the site label k{i}) per site: tensor-network operators ('op': one extra label
+# on every tensor), several qubits on one tensor, tensors of different kinds next to each other
+EXTRAS2 = {
+    "op": {0: 1, 1: 1, 2: 1},
+    "mixed": {0: 2, 1: 0, 2: 1},
+    "inner": {0: 0, 1: 2, 2: 0},
+}
+
+
+def build2x(mk, geom, extras, kind="pos", D=2, dk=2, dx=2):
+    """vector network whose site i carries k{i} and EXTRAS2[extras][i] further dangling labels q{i}, r{i}"""
+    n, edges = GEOMS2[geom]
+    inds = {i: [] for i in range(n)}
+    for a, b in edges:
+        inds[a].append(f"b{a}{b}")
+        inds[b].append(f"b{a}{b}")
+    ts = []
+    for i in range(n):
+        ex = tuple(f"{c}{i}" for c in "qr"[:EXTRAS2[extras].get(i, 0)])
+        shape = (D,) * len(inds[i]) + (dk,) + (dx,) * len(ex)
+        ts.append(qtn.Tensor(arr(mk, f"T{i}", shape, kind), tuple(inds[i]) + (f"k{i}",) + ex, tags=[f"I{i}"]))
+    tn = qtn.TensorNetworkGenVector.from_TN(qtn.TensorNetwork(ts), site_tag_id="I{}", site_ind_id="k{}", sites=tuple(range(n)))
+    return tn, n
+
+
+_D2X = [{"flavour": f, "geom": g, "extras": e, "kind": k, "update": u,
+         "_tiers": _Q if (f, g, e, k, u) in (("D2BP", "pair", "op", "pos", "sequential"), ("D2BP", "pair", "mixed", "pos", "parallel"),
+                                              ("D2BP", "pair", "op", "cplx", "sequential"), ("D2BP", "path3", "inner", "pos", "sequential"),
+                                              ("D2BP", "path3", "op", "pos", "parallel"), ("D2BP", "path3", "mixed", "cplx", "sequential"),
+                                              ("L2BP", "pair", "mixed", "pos", "sequential"), ("L2BP", "path3", "op", "pos", "parallel"),
+                                              ("L2BP", "path3", "inner", "cplx", "sequential")) else _T}
+        for f in ("D2BP", "L2BP") for g in ("pair", "path3") for e in EXTRAS2 for k in ("pos", "cplx") for u in ("sequential", "parallel")
+        if not (g == "pair" and e == "inner") and not (k == "cplx" and u == "parallel")]
+
+
+@obligation(PROP, params=_D2X, wall_s=300, timeout_s=400)
+def d2bp_multi_dangling(mk, flavour, geom, extras, kind, update):
+    """2-norm flavours on tree-shaped networks whose tensors carry 1, 2 or 3 dangling labels each (operators with ket and bra
+    labels, several qubits on one tensor): matrix messages, the D2BP marginal of EVERY dangling label (all the other dangling
+    labels of the same tensor are traced, ket with bra), site reduced density matrices (extra labels traced) and <psi|psi>"""
+    mk.encodes(d2bp.D2BP, d2bp.D2BP._init_tid, d2bp.D2BP.iterate, d2bp.D2BP.compute_marginal, d2bp.D2BP.partial_trace,
+               d2bp.D2BP.get_cluster_norm, d2bp.D2BP.contract, d2bp.D2BP.local_tensor_contract, d2bp.converge_d2bp,
+               l2bp.L2BP, l2bp.L2BP.iterate, l2bp.L2BP.partial_trace, l2bp.L2BP.contract)
+    # (path of 3: site labels k{i} of dimension 1, extra labels of dimension 2 -- with all labels of dimension 2 the cleared goals time out)
+    tn, n = build2x(mk, geom, extras, kind, dk=1 if geom == "path3" else 2)
+    fg = FG2(tn)
+    N2 = fg.norm2()
+    dangling = sorted(ix for ix, ts in fg.ind_map.items() if len(ts) == 1)
+    mk.same("some tensor carries two or more dangling labels",
+            max(sum(1 for ix in inds if ix in dangling) for _, inds in fg.terms.values()) >= 2, True)
+    nz = "L1" if kind == "pos" else ntrace
+    if flavour == "D2BP":
+        bp = d2bp.converge_d2bp(tn, normalize=nz, distance=sdist, update=update, max_iterations=n + 1, tol=0.0)
+        d2_messages_exact(mk, bp, fg, f"{extras}")
+        for ix in dangling:
+            r = fg.rdm((ix,))
+            diag = np.array([r[x, x] for x in range(r.shape[0])], dtype=object if mk.sym else None)
+            mk.eq(f"D2BP.compute_marginal({ix}) * <psi|psi> == diagonal of the exact reduced density matrix (other dangling labels traced)",
+                  bp.compute_marginal(ix) * N2, diag)
+        for i in range(n):
+            mk.eq(f"D2BP.partial_trace(({i},)) (normalized) * <psi|psi> == exact reduced density matrix of k{i} (extra labels traced)",
+                  bp.partial_trace((i,)) * N2, fg.rdm((f"k{i}",)))
+        if n > 2:
+            mk.eq("D2BP.partial_trace((2, 0)) (normalized) * <psi|psi> == exact two-site reduced density matrix (extra labels traced)",
+                  bp.partial_trace((2, 0)) * N2, fg.rdm(("k2", "k0")))
+    else:
+        bp = l2bp.L2BP(tn, site_tags=tuple(f"I{i}" for i in range(n)), normalize=nz, distance=sdist, update=update)
+        bp.run(max_iterations=n + 1, tol=0.0)
+        l2_messages_exact(mk, bp, bp.tn, fg, f"L2BP {extras}")
+        for i in range(n):
+            mk.eq(f"L2BP.partial_trace({i}) (normalized) * <psi|psi> == exact reduced density matrix of k{i} (extra labels traced)",
+                  bp.partial_trace(i) * N2, fg.rdm((f"k{i}",)))
+    if kind == "pos":
+        mk.eq(f"{flavour}.contract() == <psi|psi>", value(bp.contract(strip_exponent=True)) if flavour == "L2BP" else bp.contract(), N2)
+        if flavour == "D2BP":
+            d2_local_product(mk, "prod local_tensor_contract == <psi|psi> * prod <m_ab, m_ba>", bp, fg, N2)
+    elif not mk.sym:
+        mk.eq(f"[numeric-only] {flavour}.contract() on {kind} data == <psi|psi>", bp.contract(), N2)
+
+
 LAZY2 = {
     # site tag -> list of (tensor name, bond labels, dimension of the physical label or 0); sizes are kept small:
     # the value goals expand products of all site values (degree 2 * number of tensors)
@@ -1695,3 +1793,142 @@ def damping_argument_order(mk, flavour):
     for k, (old, new) in enumerate(calls):
         mk.same(f"{flavour}: damping call {k}: first argument is a message stored before the round (old), not the update",
                 any(_same_array(old, b, mk) for b in before), True)
+
+
+# ---------------------------------------------------------------------- call histories of run()
+
+# a history is a list of run() calls / state changes made on ONE instance before the final goals are stated.  Tolerances are
+# symbolic names: COARSE is larger than any message distance (the run stops as 'converged' after its first round, wherever the
+# messages are), FINE only accepts messages that no longer change (exact distance `sdist`: tol 0.5 between 0.0 and 1.0 in symbolic
+# mode, 1e-12 numerically); tol_rolling_diff=0.0 switches the documented rolling-mean criterion off for the fine runs.
+HISTORIES = {
+    "coarse_fine": ("coarse", "fine"),
+    "coarse_coarse_fine": ("coarse", "coarse", "fine"),
+    "fine_fine": ("fine", "fine"),
+    "fine_reset_fine": ("fine", "reset", "fine"),
+    "coarse_reset_coarse_fine": ("coarse", "reset", "coarse", "fine"),
+    "rounds_coarse_fine": ("round", "coarse", "round", "fine"),
+}
+
+_RH = []
+for f_ in ("D1BP", "HD1BP", "HV1BP", "L1BP", "D2BP", "L2BP"):
+    for h_ in HISTORIES:
+        for up_ in ("parallel", "sequential"):
+            for lc_ in (True, False):
+                if f_ == "HV1BP" and (up_ == "sequential" or lc_ is False or "reset" in h_):
+                    continue          # vectorised flavour: parallel only, no local_convergence option, stacked internal messages
+                if f_ == "HD1BP" and lc_ is False:
+                    continue          # no local_convergence option
+                quick = (h_ == "coarse_fine" and (up_ == "parallel" or lc_)) or (h_ != "coarse_fine" and up_ == "parallel" and lc_) \
+                    or (h_ == "fine_reset_fine" and up_ == "sequential" and lc_)
+                _RH.append({"flavour": f_, "history": h_, "update": up_, "lc": lc_, "_tiers": _Q if quick else _T})
+
+
+def _history_subject(mk, flavour, update, lc):
+    """-> (bp, rounds, messages_goal(tag), exact value, reset())"""
+    cnt = [0]
+
+    def fresh(shape):
+        cnt[0] += 1
+        return mk.array(f"r{cnt[0]}", tuple(shape), "pos")
+
+    if flavour == "D1BP":
+        # (path of 4: the default initial messages are exact on the leaves, one parallel round is not enough from there)
+        tn = build1(mk, "path4", "pos")
+        fg = FG(tn)
+        bp = d1bp.D1BP(tn, normalize="L1", distance=sdist, update=update, local_convergence=lc)
+
+        def reset():
+            bp.messages = {k: fresh(np.shape(m)) for k, m in bp.messages.items()}
+        return bp, iters_for(tn) + 1, lambda tag: d1_messages_exact(mk, bp, fg, tag), fg.z(), reset
+    if flavour == "HD1BP":
+        tn = build1(mk, "hyper3", "pos")
+        fg = FG(tn)
+        bp = hd1bp.HD1BP(tn, normalize=nl1, distance=sdist, update=update, smudge_factor=0.0)
+
+        def reset():
+            bp.messages = {k: fresh(np.shape(m)) for k, m in bp.messages.items()}
+        return bp, iters_for(tn, hyper=True) + 1, lambda tag: hyper_messages_exact(mk, bp.messages, bp.tn, fg, tag), fg.z(), reset
+    if flavour == "HV1BP":
+        tn = build1(mk, "hyper3", "pos")
+        fg = FG(tn)
+        # (symbolic positive initial messages: whatever a coarse pass leaves behind depends on them)
+        init = {}
+        for tid, t in tn.tensor_map.items():
+            for ix in t.inds:
+                init[tid, ix] = fresh((t.ind_size(ix),))
+                init[ix, tid] = fresh((t.ind_size(ix),))
+        bp = hv1bp.HV1BP(tn, messages=init, normalize=l1_batched, distance=sdist, smudge_factor=0.0)
+        return bp, tn.num_tensors + 2, lambda tag: hyper_messages_exact(mk, bp.get_messages_dense(), bp.tn, fg, tag), fg.z(), None
+    if flavour == "L1BP":
+        tn, sites = build_lazy1(mk, "lpath3", "pos")
+        fg = FG(tn)
+        bp = l1bp.L1BP(tn, site_tags=sites, normalize="L1", distance=sdist, update=update, local_convergence=lc)
+
+        def reset():
+            for tm in bp.messages.values():
+                tm.modify(data=fresh(tm.shape))
+        return bp, len(sites) + 2, lambda tag: lazy_messages_exact(mk, bp, bp.tn, fg, tag), fg.z(), reset
+    if flavour == "D2BP":
+        tn, n = build2(mk, "path3", "pos", phys={0: 2, 1: 1, 2: 2})
+        fg = FG2(tn)
+        bp = d2bp.D2BP(tn, normalize="L1", distance=sdist, update=update, local_convergence=lc)
+
+        def reset():
+            bp.messages = {k: fresh(np.shape(m)) for k, m in bp.messages.items()}
+        return bp, n + 2, lambda tag: d2_messages_exact(mk, bp, fg, tag), fg.norm2(), reset
+    tn, sites = build_lazy2(mk, "lpath3", "pos")
+    fg = FG2(tn)
+    bp = l2bp.L2BP(tn, site_tags=sites, normalize="L1", distance=sdist, update=update, local_convergence=lc)
+
+    def reset():
+        for tm in bp.messages.values():
+            tm.modify(data=fresh(tm.shape))
+    return bp, len(sites) + 2, lambda tag: l2_messages_exact(mk, bp, bp.tn, fg, tag), fg.norm2(), reset
+
+
+@obligation(PROP, params=_RH, wall_s=300, timeout_s=400, exc_is_violation=True)
+def run_history(mk, flavour, history, update, lc):
+    """results do not depend on the history of run() calls made on one instance: coarse passes (tol above every message
+    distance: each stops as 'converged' after one round), single rounds, completed fine runs and user resets of the messages
+    (fresh symbolic positive messages), in the listed orders, followed by a fine run: the messages are the exact cavity
+    contractions and contract() is the exact value / <psi|psi>, exactly as after a single fine run on a fresh instance; the
+    run that follows a converged run iterates again and fills `info`"""
+    mk.encodes(bp_common.BeliefPropagationCommon.run, d1bp.D1BP.iterate, hd1bp.HD1BP.iterate, hv1bp.HV1BP.iterate, l1bp.L1BP.iterate,
+               d2bp.D2BP.iterate, l2bp.L2BP.iterate)
+    bp, rounds, messages_goal, want, reset = _history_subject(mk, flavour, update, lc)
+    coarse = 4.0
+    fine = 0.5 if mk.sym else 1e-12
+    steps = HISTORIES[history]
+
+    def run(**kw):
+        """bp.run(**kw) -> number of rounds performed (public counter `n`)"""
+        n0 = bp.n
+        bp.run(max_iterations=kw.pop("max_iterations", rounds), **kw)
+        return bp.n - n0
+
+    for k, step in enumerate(steps):
+        if step == "coarse":
+            mk.same(f"step {k} (coarse pass, tol above every message distance): stops as converged after one round",
+                    (run(tol=coarse), bool(bp.converged)), (1, True))
+        elif step == "round":
+            mk.same(f"step {k} (single round, tol=0): one round, not flagged converged", (run(max_iterations=1, tol=0.0), bool(bp.converged)), (1, False))
+        elif step == "reset":
+            reset()
+        else:
+            its = run(tol=fine, tol_rolling_diff=0.0)
+            mk.same(f"step {k} (fine run): performs at least one round and ends converged on a tree", (its >= 1, bool(bp.converged)), (True, True))
+    tag = f"{flavour} after {'+'.join(steps)}"
+    messages_goal(tag)
+    mk.eq(f"{tag}: contract() == exact value", value(bp.contract(strip_exponent=True)) if flavour == "L2BP" else bp.contract(), want)
+    # one more run at the fixed point: it must look at the messages again (one round), find them unchanged and report so
+    its = run(tol=fine, tol_rolling_diff=0.0)
+    mk.same(f"{tag}: a further run performs one round and ends converged", (its, bool(bp.converged)), (1, True))
+    converged_goal(mk, f"{tag}: a further run changes nothing (last recorded max_mdiff == 0)", {"max_mdiff": bp.mdiffs[-1]})
+    messages_goal(tag + " + one more run")
+    if history == "fine_fine":
+        # the documented `info` record of a run that follows a converged run
+        info = {}
+        bp.run(max_iterations=rounds, tol=fine, tol_rolling_diff=0.0, info=info)
+        mk.same(f"{tag}: info of a run after a converged run: converged, one round", (bool(info["converged"]), info["iterations"]), (True, 1))
+        converged_goal(mk, f"{tag}: info['max_mdiff'] == 0 at the fixed point", info)
